@@ -166,7 +166,7 @@ def spell(w, upper):
     return ('%08X' if upper else '%08x') % w
 
 
-@PROP.given('signatures', lambda tier: sig_case(), quick=1500, thorough=60000, shards_quick=8)
+@PROP.given('signatures', lambda tier: sig_case(), quick=4000, thorough=60000, shards_quick=8)
 def signatures(case, note):
     from pel.hwdiags.parserdata import ParserData
     import udparsers.oe500.oe500 as ud
@@ -264,7 +264,7 @@ def regdump_case(draw):
 REG_LINE = re.compile(r'^\s*(.*?)\s*\((0x[0-9A-Fa-f]+)\)\s*(.*)$')
 
 
-@PROP.given('register-dumps', lambda tier: regdump_case(), quick=1000, thorough=40000, shards_quick=8)
+@PROP.given('register-dumps', lambda tier: regdump_case(), quick=3000, thorough=40000, shards_quick=8)
 def register_dumps(case, note):
     import udparsers.oe500.oe500 as ud
     chips, files = case['chips'], case['files']
@@ -347,7 +347,7 @@ def misc_case(draw):
             'other_subtype': draw(st.one_of(st.integers(6, 255), st.just(0)))}
 
 
-@PROP.given('scratch-and-ffdc', lambda tier: misc_case(), quick=800, thorough=30000, shards_quick=8)
+@PROP.given('scratch-and-ffdc', lambda tier: misc_case(), quick=2400, thorough=30000, shards_quick=8)
 def scratch_and_ffdc(case, note):
     import udparsers.oe500.oe500 as ud
     d = struct.pack('>IIQQ', case['cfam_addr'], case['cfam_val'], case['scom_addr'], case['scom_val']) + case['extra']
